@@ -270,7 +270,11 @@ func (w *zz3World) open(path string) (FileReader, error) {
 
 func zz3Setup() {
 	if verifrt.Symbolic() {
-		// package os is never initialised under the engine; os.IsNotExist compares against this variable
+		// packages os, io/fs and internal/oserror are never initialised under the engine (their error
+		// variables are nil there); os.IsNotExist compares against os.ErrNotExist
+		if fs.ErrNotExist == nil {
+			fs.ErrNotExist = errors.New("file does not exist")
+		}
 		os.ErrNotExist = fs.ErrNotExist
 	}
 }
@@ -321,7 +325,10 @@ func zz3CheckRead(r *zz3Request, w *zz3World, offset, size uint64, out []byte, e
 	case size > 0 && (offset > flen || flen-offset < size):
 		verifrt.Assert("C03.file-shrunk-is-corrupt-changed", isCorrupt && cre.Code == StatusFileChanged)
 	default:
-		region := f.data[offset : offset+size]
+		region := []byte{} // an empty read succeeds at any offset
+		if size > 0 {
+			region = f.data[offset : offset+size]
+		}
 		r.assumeNoCollision(region)
 		match := r.hashesTo(region)
 		if err == nil {
